@@ -189,11 +189,14 @@ def oracle(fn, arg, out):
         return None   # the content law presupposes a whitespace indent
     if nonsp(res) != nonsp(s):
         return 'non-whitespace content changed: %r -> %r' % (s, res)
-    # physical lines: output lines may contain embedded line-break characters of the input; use the
-    # structural laws only when the input has no line-break whitespace
-    if any(c in s for c in '\n\r\x0b\x0c\x1c\x1d\x1e\x85  '):
+    # physical lines are what '\n' separates (wrap joins with '\n' and nothing else); the structural laws are
+    # stated for inputs without '\n' -- other line-break-like whitespace (\r \x0b \x0c \x1c-\x1e \x85 U+2028/9)
+    # is ordinary whitespace to wrap and must not cause a break of its own
+    if '\n' in s or '\n' in ind:
         return None
     lines = res.split('\n')
+    if len(s) <= w and res != s.rstrip():
+        return 'the text fits into width %d and must come back unbroken (only right-stripped): %r -> %r' % (w, s, res)
     for k, l in enumerate(lines):
         if l != l.rstrip():
             return 'trailing whitespace on line %d: %r' % (k, l)
